@@ -226,8 +226,9 @@ def run(tier: str) -> Run:
                 for e in events(o, 'narrowing-cast'):
                     # float -> int always loses the fraction; float64 -> float32 is by
                     # design only where a single-precision operand is present
-                    any_f32 = any(d == 'float32' for d in dt.values())
-                    if e.detail['dst'] in ('int64', 'int32') or not any_f32:
+                    # (where the documented result is double precision, rounding an intermediate to single precision
+                    # loses digits that the float64 label of the result promises)
+                    if e.detail['dst'] in ('int64', 'int32') or expect != 'float32':
                         verdicts.append({'narrowing_cast': e.detail, 'where': e.where})
             if na and not verdicts:
                 r4.ok(inst, {'verdict': 'n/a: scipp has no arithmetic for this combination'}, nontrivial=False)
